@@ -618,8 +618,9 @@ def plumbing(ctx):
             and e.args[2] == box and e.args[3] == V('chunksize')
         ctx.check(ok, R, f'api.matrix.engine#{n}', ctx.where(fm, e), found=e.term,
                   expected='Engine(reader, field, (i0, i1, j0, j1), chunksize)', reason='the window reaches the engine in (row, row, col, col) order')
-    if n < 5:
-        ctx.unrec(R, 'api.matrix.engines', ctx.where(fm), found=n, reason='expected five engine constructions')
+    if n < 3:
+        ctx.unrec(R, 'api.matrix.engines', ctx.where(fm), found=n,
+                  reason='expected engine constructions for pixel output, fill-lower output and direct output')
     # pixel output uses the direct engine, index iff not ignore_index
     px = [e for e in calls(fm, f'{RQ}.DirectRangeQuery2D') if e.under(V('as_pixels'))]
     ctx.check(len(px) == 1 and T.get_kw(px[0].term, 'return_index') == T.not_(V('ignore_index')), R, 'api.matrix.pixels-engine',
